@@ -32,7 +32,7 @@ CONFIG = {
                             'pairs.documented': 110, 'rules.distinct-fired': 70, 'renumbered.compared': 40000, 'tautomers.generated': 1500,
                             'pairs.geminal': 100, 'warm-cache.compared': 30000, 'inputs.quaternized': 600}},
 }
-EXTRA = ['C[NH2+][Hg]Cl', '[NH3+]CCC(C[NH2+]C)C([O-])=O', '[O-]C(=O)CC(C([O-])=O)C[NH3+]', 'C[NH2+]CCC[NH3+].[Cl-]', 'C=1(C([O-])=C2C=CC(C=[NH+]C)=C2)C=CC([15NH3+])=CC=1', 'C[NH+](C)CC(C[NH3+])CC([O-])=O',
+EXTRA = ['NC(=CC=CC(=[O+]C)C)[N-]C', 'C[N+](C)=CC(=CC=C[O-])[N+]#N', 'C[NH2+][Hg]Cl', '[NH3+]CCC(C[NH2+]C)C([O-])=O', '[O-]C(=O)CC(C([O-])=O)C[NH3+]', 'C[NH2+]CCC[NH3+].[Cl-]', 'C=1(C([O-])=C2C=CC(C=[NH+]C)=C2)C=CC([15NH3+])=CC=1', 'C[NH+](C)CC(C[NH3+])CC([O-])=O',
          'CCN1C=C(O)[N+](C)=C1', 'CCN1C=C(N)[N+](C)=C1', '[2H]CO', 'C[NH+]([2H])C', '[2H]C([H])([H])O', '[2H]C=C', 'CC([2H])O', '[3H]CC', '[2H]C([2H])O', 'C[C@H]([2H])O', '[2H]c1ccccc1', 'CC([2H])=O',
          'N#Cc1ccc2[nH]ccc2c1', 'N#CC=CO', 'C#CC=CNC', 'N#Cc1ccc(O)cc1', 'OC=CC=C=C', 'N#CC(C)=C(C)O', 'C#Cc1ccc2[nH]c(C)cc2c1', 'N#CC=CC=CN', 'OC(C)=CC=C=CC',
          'CN(=O)=O', 'C[N+](=O)[O-]', 'CN=[N+]=[N-]', 'CN=N#N', 'C[S+](C)[O-]', 'CS(C)=O', 'O=[N+]([O-])c1ccccc1', 'C[N+](C)(C)[O-]',
@@ -109,6 +109,19 @@ def geminal_pairs():
         a2, b2 = parts[(i * 7 + 3) % len(parts)]
         out.append(('C(%s)%s' % (a, a2), 'C(%s)%s' % (b, b2)))
     return out
+
+
+def several_resonance_ends(m):
+    """three or more atoms that can take or give a charge through the conjugated system: charged atoms, and neutral N / O / S with a lone
+    pair next to an unsaturated atom (branched push-pull systems such as NC(=CC=CC(=[O+]C)C)[N-]C)"""
+    k = 0
+    for n, a in m.atoms():
+        if a.charge:
+            k += 1
+        elif a.atomic_number in (7, 8, 16) and all(b.order == 1 for b in m._bonds[n].values()) and \
+                any(m._atoms[x].hybridization in (2, 3, 4) for x in m._bonds[n]):
+            k += 1
+    return k >= 3
 
 
 def amidinium(m):
@@ -306,6 +319,13 @@ def check_ops(ctx, m, src, cfg, rng, tautomer_fix_ok):
                 a1 = run_op(ctx, name, a0, False, src) if a0 is not None else None
                 if a1 is not None and same_molecule(a0, a1):
                     tag = '/tautomer-rule-matches-one-resonance-form-of-an-amidinium'
+            if not tag and name in ('canonicalize', 'standardize', 'fix_resonance') and several_resonance_ends(m):
+                # recorded finding (same mechanism as under renumbering): the first call may stop at a zwitterion whose charges a second
+                # call still moves; fix_resonance() alone must show it on this input
+                f1 = run_op(ctx, 'fix_resonance', m, False, src)
+                f2 = run_op(ctx, 'fix_resonance', f1, False, src) if f1 is not None else None
+                if f2 is not None and not same_molecule(f1, f2):
+                    tag = '/fix_resonance-takes-the-first-of-several-ends'
             ctx.violation('not-idempotent/%s%s' % (name, tag), '%s: %s -> %s -> %s' % (src, m, r, r2), w)
             continue
         # the same with every cached view read before the call (input) and between the two applications (result)
@@ -346,7 +366,14 @@ def check_ops(ctx, m, src, cfg, rng, tautomer_fix_ok):
                 if d and all(x.startswith('stereo') for x in d) and (SY.has_equivalent_substituents(a) or T.ring_diene_ct(a)):
                     ctx.exclude('pseudo-asymmetric-labels', {'smiles': src})
                     break
-                ctx.violation('result-depends-on-numbering/%s' % name, '%s: %s' % (src, d[:3]), w)
+                tag = ''
+                if name in ('standardize', 'canonicalize', 'fix_resonance') and several_resonance_ends(m):
+                    # recorded finding: with three or more atoms that can take or give the charge, fix_resonance() follows the first path
+                    # its search meets; the difference must already show with fix_resonance() alone on the same two descriptions
+                    fa, fb = run_op(ctx, 'fix_resonance', m, False, src), run_op(ctx, 'fix_resonance', new, False, src)
+                    if fa is not None and fb is not None and not same_molecule(fa, fb, mp):
+                        tag = '/fix_resonance-takes-the-first-of-several-ends'
+                ctx.violation('result-depends-on-numbering/%s%s' % (name, tag), '%s: %s' % (src, d[:3]), w)
                 break
     # inverse pair (implicify is documented for Kekule forms only)
     e = run_op(ctx, 'explicify_hydrogens', m, True, src) if not any(b.order == 4 for *_, b in m.bonds()) else None
